@@ -29,8 +29,8 @@ def run(ctx, args):
     ctx.exhaustive = True
     walks = build_walks(edges, init=1, rng=rng, n_random=(10 if quick else 150), depth=12, maxlen=30)
     if quick:
-        # all single-transaction cases, all 2-transaction snapshots, a seeded third of the 3-transaction ones
-        snaps = [s for s in snaps if len(s["k"]["classes"]) < 3 or rng.random() < 0.34]
+        # all single-transaction cases, all 2-transaction snapshots, a seeded fifth of the 3-transaction ones
+        snaps = [s for s in snaps if len(s["k"]["classes"]) < 3 or rng.random() < 0.2]
     ctx.log("walks: %d covering %d edges; snapshot cases: %d" % (len(walks), len(edges), len(snaps)))
     cases = os.path.join(ctx.scratch, "cases.json")
     with open(cases, "w") as fh:
